@@ -91,46 +91,55 @@ def seek (t : TI) (k : Nat) : TI :=
 def seekFirst (t : TI) : TI := posMin t.fuel { t with dir := .fwd, eq := false, snap := t.snap.first, ws := t.ws.first }
 def seekLast (t : TI) : TI := posMax t.fuel { t with dir := .bwd, eq := false, snap := t.snap.last, ws := t.ws.last }
 
-/-- `next` with the direction-change prologue of the `fix:` commit -/
-def next (t : TI) : TI :=
+/-- after a direction change both sources may sit on the same key: the flag must say so -/
+def eqCheck (t : TI) : TI :=
+  if t.snap.valid && t.ws.valid && t.snapKey == t.wsKey then { t with eq := true } else t
+
+/-- direction-change prologue of `next` (the `fix:` commit): each exhausted source re-enters from its
+first key; when both were valid, the one that is *not* current is moved past the current key -/
+def turnFwd (t : TI) : TI :=
+  let sv := t.snap.valid
+  let wv := t.ws.valid
+  let t := { t with dir := .fwd, eq := false }
+  let t := if !sv then { t with snap := t.snap.first } else t
+  let t := if !wv then { t with ws := t.ws.first } else t
   let t :=
-    if t.dir != .fwd then
-      let t := { t with dir := .fwd, eq := false }
-      let sv := t.snap.valid
-      let wv := t.ws.valid
-      let t := if !sv then { t with snap := t.snap.first } else t
-      let t := if !wv then { t with ws := t.ws.first } else t
-      let t :=
-        if sv && wv then
-          if t.cur == .snap then { t with ws := t.ws.next } else { t with snap := t.snap.next }
-        else t
-      if t.snap.valid && t.ws.valid && t.snapKey == t.wsKey then { t with eq := true } else t
+    if sv && wv then
+      if t.cur == .snap then { t with ws := t.ws.next } else { t with snap := t.snap.next }
     else t
+  t.eqCheck
+
+def stepFwd (t : TI) : TI :=
   if t.eq then posMin t.fuel { t with snap := t.snap.next, ws := t.ws.next, eq := false }
   else match t.cur with
     | .snap => posMin t.fuel { t with snap := t.snap.next }
     | .ws => posMin t.fuel { t with ws := t.ws.next }
     | .none => t
 
-def prev (t : TI) : TI :=
+/-- `next` -/
+def next (t : TI) : TI := stepFwd (if t.dir != .fwd then t.turnFwd else t)
+
+def turnBwd (t : TI) : TI :=
+  let sv := t.snap.valid
+  let wv := t.ws.valid
+  let t := { t with dir := .bwd, eq := false }
+  let t := if !sv then { t with snap := t.snap.last } else t
+  let t := if !wv then { t with ws := t.ws.last } else t
   let t :=
-    if t.dir != .bwd then
-      let t := { t with dir := .bwd, eq := false }
-      let sv := t.snap.valid
-      let wv := t.ws.valid
-      let t := if !sv then { t with snap := t.snap.last } else t
-      let t := if !wv then { t with ws := t.ws.last } else t
-      let t :=
-        if sv && wv then
-          if t.cur == .snap then { t with ws := t.ws.prev } else { t with snap := t.snap.prev }
-        else t
-      if t.snap.valid && t.ws.valid && t.snapKey == t.wsKey then { t with eq := true } else t
+    if sv && wv then
+      if t.cur == .snap then { t with ws := t.ws.prev } else { t with snap := t.snap.prev }
     else t
+  t.eqCheck
+
+def stepBwd (t : TI) : TI :=
   if t.eq then posMax t.fuel { t with snap := t.snap.prev, ws := t.ws.prev, eq := false }
   else match t.cur with
     | .snap => posMax t.fuel { t with snap := t.snap.prev }
     | .ws => posMax t.fuel { t with ws := t.ws.prev }
     | .none => t
+
+/-- `prev` -/
+def prev (t : TI) : TI := stepBwd (if t.dir != .bwd then t.turnBwd else t)
 
 def key (t : TI) : Option Nat :=
   match t.cur with
